@@ -21,6 +21,9 @@ Base(ln, w, lb, fold, rem, q) ==
 \* a base statement whose highest-degree constraint also carries a periodic factor (degree 3, one cycle => blowup 4)
 BaseP == [Base(4, 2, 2, 2, 3, 10) EXCEPT !.degs = <<1, 3>>, !.pcol = <<0, 1>>, !.cycles = <<8>>]
 
+\* two periodic columns of different cycle lengths (4 and 8; the trace is longer than both), used by different constraints
+BaseP2 == [Base(4, 3, 2, 2, 3, 10) EXCEPT !.pcol = <<1, 2, 0>>, !.cycles = <<4, 8>>]
+
 \* a base statement with every assertion template and four exemptions: the last steps of the periodic and sequence assertions
 \* are reached by no enforced transition, so only the boundary constraints protect them
 BaseA == [Base(4, 3, 2, 2, 3, 10) EXCEPT !.k = 4, !.nasserts = 6]
@@ -32,7 +35,7 @@ BaseX1 == [Base(4, 2, 2, 2, 3, 10) EXCEPT !.auxd = <<1, 2>>, !.auxr = 2, !.nauxa
 BaseX2 == [Base(3, 1, 1, 2, 0, 3) EXCEPT !.auxd = <<1>>, !.auxr = 1, !.lag = 1, !.nauxa = 2]
 BaseX3 == [Base(5, 3, 3, 2, 3, 20) EXCEPT !.auxd = <<2, 1, 1>>, !.auxr = 1, !.lag = 1, !.nauxa = 3, !.k = 2, !.ext = 3, !.bits = 62]
 
-Init == /\ t \in {Base(3, 1, 1, 2, 0, 3), Base(4, 2, 2, 4, 7, 8), Base(5, 3, 3, 2, 3, 20), Base(6, 8, 3, 8, 31, 12), BaseP, BaseA,
+Init == /\ t \in {Base(3, 1, 1, 2, 0, 3), Base(4, 2, 2, 4, 7, 8), Base(5, 3, 3, 2, 3, 20), Base(6, 8, 3, 8, 31, 12), BaseP, BaseP2, BaseA,
                   BaseX1, BaseX2, BaseX3}
         /\ Admissible(t) /\ d = 0
 
